@@ -96,10 +96,15 @@ def normalise(facts):
     miss_by_sig = {}
     for d, t in missing.items():
         miss_by_sig.setdefault(t["sig"], []).append(d)
+    def same_kind(a, b):
+        """a trait's provided method is not a renamed override of that trait (and the other way round): when an
+        override disappears in favour of the default, both are what they are"""
+        return a.startswith("<") == b.startswith("<")
+
     renames = {}
     for sig, ds in miss_by_sig.items():
         cands = by_sig.get(sig, [])
-        if len(ds) == 1 and len(cands) == 1:
+        if len(ds) == 1 and len(cands) == 1 and same_kind(cands[0], ds[0]):
             renames[cands[0]] = ds[0]
     # second pass: functions moved to another type / trait / module (receiver and impl context differ).
     # Same parameters apart from the receiver, same result, and a body that mentions the same things;
@@ -112,7 +117,7 @@ def normalise(facts):
         want = set(t["fp"])
         scored = []
         for nd, rec in new.items():
-            if nd in taken or loose_signature(rec) != t["loose"]:
+            if nd in taken or loose_signature(rec) != t["loose"] or not same_kind(nd, d):
                 continue
             got = set(fingerprint(rec))
             j = len(want & got) / float(len(want | got) or 1)
